@@ -205,9 +205,10 @@ Definition edge_pad (lpad : Z) (x : list A) : list A :=
   | a :: _ => repeat a (Z.to_nat lpad) ++ x ++ repeat (last x a) (Z.to_nat lpad)
   end.
 
-(* smooth.lp: ts_ = pad; ts_ = ft.lp(ts_, ...); return ts_[lpad:-lpad] *)
+(* smooth.lp: ts_ = pad; ts_ = ft.lp(ts_, ...); return ts_[lpad:ts_.shape[0] - lpad] *)
 Definition lp (filt : list A -> list A) (lpad : Z) (x : list A) : list A :=
-  pyslice lpad (- lpad) (filt (edge_pad lpad x)).
+  let t := filt (edge_pad lpad x) in
+  pyslice lpad (Z.of_nat (length t) - lpad) t.
 End Elems.
 Arguments reflect_pad {A}. Arguments conv_windows {A}. Arguments rolling_windows {A}.
 Arguments edge_pad {A}. Arguments lp {A}.
